@@ -139,7 +139,8 @@ def stepCancel (s : State) (c : Nat) : Option (State × Ev) :=
     some ({ s1.resume i with kpc := upd s1.kpc c (.finish n i) }, .tau)
   | .finish n _ => some ({ s.free n with kpc := upd s.kpc c .idle, kres := upd s.kres c true }, .tau)
 
-/-- the awaiter's executor runs the continuation: `await_resume` -/
+/-- the awaiter's executor runs the continuation (or refuses it and `resume_in_executor` resumes in place:
+same effect): `await_resume` -/
 def run (s : State) (i : Nat) : Option State :=
   if s.ast i = .resuming then
     some { s with ast := upd s.ast i .running,
@@ -180,6 +181,7 @@ structure RState where
   fex : List (Nat × Nat) := []          -- awaiter -> executor
   cur : List (Nat × Nat) := []          -- OS thread -> instance whose `cwait` it executed last
   call : List (Nat × Nat) := []         -- OS thread -> inside a ccancel call (1) or not
+  rej : List Nat := []                  -- OS threads on which an executor has just rejected a resumption
 
 def RState.init : RState := {}
 
@@ -283,12 +285,14 @@ def stepObs (r : RState) (o : Obs) : Except String RState :=
         | none => .error "take by an unknown actor"
     | _, _, _ => .error "unknown cas"
   | "ev", "cresumed" :: i :: e :: rest =>
-    match i.toNat?, nameNum "e" e with
+    -- `e-1` (the thread is in no executor) is an index no awaiter is bound to
+    match i.toNat?, (if e == "e-1" then some 1000 else nameNum "e" e) with
     | some i, some e =>
       let s := drainAll r.s
-      if lookup r.fex i ≠ some e then .error s!"awaiter {i} resumed on executor {e}, bound to {reprStr (lookup r.fex i)}"
+      if lookup r.fex i ≠ some e ∧ ¬ r.rej.contains t then .error s!"awaiter {i} resumed on executor {e}, bound to {reprStr (lookup r.fex i)}"
       else match run s i with
         | some s' =>
+          let r := { r with rej := r.rej.erase t }
           let got : Option Nat := match rest with
             | ["value", v] => v.toNat?
             | _ => none
@@ -296,6 +300,7 @@ def stepObs (r : RState) (o : Obs) : Except String RState :=
           else .error s!"awaiter {i} received {reprStr got}, model says {reprStr (s'.result i)}"
         | none => .error s!"awaiter {i} resumed but the model has it {reprStr (s.ast i)}"
     | _, _ => .error "bad cresumed"
+  | "ev", ["xreject", _, _] => .ok { r with rej := t :: r.rej }
   | "ev", ["cdone", i] =>
     match i.toNat? with
     | some i => if r.s.ast i = .running then .ok { r with s := { r.s with ast := upd r.s.ast i .done } } else .error "cdone of an awaiter that is not running"
